@@ -799,8 +799,14 @@ class BaseOdeModel(object):
             # else:
             #     raise InputError("Input type should either be a string or list")
 
-            self._state_lims=lim_list                           # TODO: maybe assigning limits via a dict is tidier/safer
-            self.__setattr__(attr_list_name, list(attr_list))
+            # a declaration such as 'y1:4' expands into several states: every one
+            # of them carries the limits declared for (or defaulted to) that entry
+            state_lims=[]
+            for att, lim in zip(attr_list, lim_list):
+                n_before=len(self.__getattribute__(attr_list_name))
+                self.__setattr__(attr_list_name, [att])
+                state_lims+=[lim]*(len(self.__getattribute__(attr_list_name))-n_before)
+            self._state_lims=state_lims                         # TODO: maybe assigning limits via a dict is tidier/safer
 
         else:
             raise InputError("No attribute passed to function")
